@@ -454,8 +454,10 @@ func (m *MemoryBackend) Terminate(client *Client) error {
 	// remove any temporary session
 	delete(m.temporarySessions, client)
 
-	// remove any saved client
-	delete(m.activeClients, client.ID())
+	// remove any saved client, unless the id has been taken by another client
+	if m.activeClients[client.ID()] == client {
+		delete(m.activeClients, client.ID())
+	}
 
 	return nil
 }
